@@ -47,6 +47,18 @@ func genCase(rt *rapid.T) *Case {
 		}
 		return Step{Who: who, Call: call}
 	}), 1, 14).Draw(rt, "steps")
+	if rapid.IntRange(0, 29).Draw(rt, "long") == 0 {
+		// a long conversation: many sends and receives after (or around) the creation
+		n := rapid.IntRange(20, 70).Draw(rt, "nlong")
+		for i := 0; i < n; i++ {
+			call := rapid.SampledFrom([]string{"send", "send", "recv", "deliver", "header", "trailer"}).Draw(rt, "lcall")
+			who := map[string]int{"send": 0, "recv": 1}[call]
+			if call == "header" || call == "trailer" {
+				who = 2
+			}
+			c.Steps = append(c.Steps, Step{Who: who, Call: call})
+		}
+	}
 	return c
 }
 
@@ -91,7 +103,7 @@ func TestC12(t *testing.T) {
 	st := hx.For("C12")
 	n := 0
 	for _, m := range []string{"/svc/M", "", "weird method"} {
-		for nopts := 0; nopts < 3; nopts++ {
+		for _, nopts := range []int{0, 1, 2, 9, 40} {
 			for rk := 0; rk < 3; rk++ {
 				for ek := 0; ek < 3; ek++ {
 					for _, dl := range []bool{false, true} {
